@@ -205,8 +205,22 @@ func (h *hctx) expr(e ast.Expr, env henv) hv {
 		if id, ok := x.X.(*ast.Ident); ok && id.Name == "datatransfer" {
 			return hv{coq: x.Sel.Name, kind: "status"} // a status constant; ill-kinded uses fail in Coq
 		}
+		if id, ok := x.X.(*ast.Ident); ok && id.Name == "types" {
+			return hv{coq: x.Sel.Name, kind: "msgtype"}
+		}
 		b := h.expr(x.X, env)
 		switch b.kind {
+		case "opaque":
+			switch x.Sel.Name {
+			case "ValidatePull":
+				return hv{coq: "VPull", kind: "vkind"}
+			case "ValidatePush":
+				return hv{coq: "VPush", kind: "vkind"}
+			}
+		case "vresptr":
+			if x.Sel.Name == "Voucher" {
+				return hv{coq: "v_node (vr_res " + b.coq + ")", kind: "node"}
+			}
 		case "chid":
 			switch x.Sel.Name {
 			case "Initiator":
@@ -228,6 +242,9 @@ func (h *hctx) expr(e ast.Expr, env henv) hv {
 				"RequiresFinalization": {coq: "vr_fin", kind: "bool"}, "DataLimit": {coq: "vr_limit", kind: "N"}}
 			if a, ok := f[x.Sel.Name]; ok {
 				return hv{coq: a.coq + " " + paren(b.coq), kind: a.kind}
+			}
+			if x.Sel.Name == "VoucherResult" {
+				return hv{coq: paren(b.coq), kind: "vresptr"}
 			}
 		}
 	case *ast.BinaryExpr:
@@ -269,6 +286,11 @@ func (h *hctx) expr(e ast.Expr, env henv) hv {
 					return hv{coq: "ret_ok " + paren(a.coq), kind: "bool"}
 				case "node":
 					return wrap("N.eqb (" + a.coq + ") 0")
+				case "vresptr":
+					if neg {
+						return hv{coq: "vr_hasres " + a.coq, kind: "bool"}
+					}
+					return hv{coq: "negb (vr_hasres " + a.coq + ")", kind: "bool"}
 				case "omsg":
 					if neg {
 						return hv{coq: "is_some_msg " + paren(a.coq), kind: "bool"}
@@ -298,6 +320,11 @@ func (h *hctx) expr(e ast.Expr, env henv) hv {
 				return wrap(fmt.Sprintf("ctype_eqb (%s) (%s)", a.coq, b.coq))
 			}
 			h.refuse(e, "comparison of two %s values", a.kind)
+		}
+	case *ast.StarExpr:
+		b := h.expr(x.X, env)
+		if b.kind == "vresptr" {
+			return hv{coq: "vr_res " + b.coq, kind: "voucher"}
 		}
 	case *ast.CallExpr:
 		return h.pureCall(x, env)
@@ -372,6 +399,19 @@ func (h *hctx) pureCall(c *ast.CallExpr, env henv) hv {
 		return hv{coq: fmt.Sprintf("N.eqb (%s) (%s)", a.coq, b.coq), kind: "bool"}
 	case "datatransfer.TransferID", "uint64", "int64":
 		return h.expr(c.Args[0], env)
+	}
+	if sel, ok := c.Fun.(*ast.SelectorExpr); ok && sel.Sel.Name == "LeaveRequestPaused" && len(c.Args) == 1 {
+		vr, ch := h.expr(sel.X, env), h.expr(c.Args[0], env)
+		if vr.kind == "valres" && ch.kind == "chan" {
+			return hv{coq: fmt.Sprintf("leave_paused %s %s", paren(vr.coq), paren(ch.coq)), kind: "bool"}
+		}
+	}
+	if callee == "m.requestError" && len(c.Args) == 3 {
+		vr, er, st := h.expr(c.Args[0], env), h.expr(c.Args[1], env), h.expr(c.Args[2], env)
+		if vr.kind != "valres" || er.kind != "ret" || st.kind != "bool" {
+			h.refuse(c, "requestError called with a %s, a %s and a %s", vr.kind, er.kind, st.kind)
+		}
+		return hv{coq: fmt.Sprintf("request_error_ret %s %s %s", paren(vr.coq), paren(er.coq), paren(st.coq)), kind: "ret"}
 	}
 	if mc, ok := msgCtors[callee]; ok {
 		if len(c.Args) != len(mc.args) {
@@ -464,7 +504,7 @@ type progSibling struct {
 	coq     string
 	args    []string
 	argIdx  []int
-	results string // "ret"
+	results string // kinds of the results, comma separated: "ret", "valres,ret", "bool,valres,ret", "omsg,ret"
 }
 
 var hProgSiblings = map[string]progSibling{
@@ -476,6 +516,15 @@ var hProgSiblings = map[string]progSibling{
 	"m.restartManagerPeerReceivePull": {"gen_restartManagerPeerReceivePull", []string{"chan"}, []int{1}, "ret"},
 	"m.openPushRestartChannel":        {"gen_openPushRestartChannel", []string{"chan"}, []int{1}, "ret"},
 	"m.openPullRestartChannel":        {"gen_openPullRestartChannel", []string{"chan"}, []int{1}, "ret"},
+	"m.validateRestartRequest":        {"gen_validateRestartRequest", []string{"N", "chid", "msg"}, []int{1, 2, 3}, "ret"},
+	"m.recordRejectedValidationEvents": {"gen_recordRejectedValidationEvents", []string{"chid", "valres"}, []int{0, 1}, "ret"},
+	"m.recordAcceptedValidationEvents": {"gen_recordAcceptedValidationEvents", []string{"chan", "valres"}, []int{0, 1}, "ret"},
+	"m.acceptRequest":                 {"gen_acceptRequest", []string{"#self", "chid", "msg"}, []int{0, 0, 1}, "valres,ret"},
+	"m.restartRequest":                {"gen_restartRequest", []string{"#self", "chid", "msg"}, []int{0, 0, 1}, "bool,valres,ret"},
+	"m.receiveRestartRequest":         {"gen_receiveRestartRequest", []string{"#self", "chid", "msg"}, []int{0, 0, 1}, "omsg,ret"},
+	"m.receiveNewRequest":             {"gen_receiveNewRequest", []string{"#self", "chid", "msg"}, []int{0, 0, 1}, "omsg,ret"},
+	"m.processUpdateVoucher":          {"gen_processUpdateVoucher", []string{"chid", "msg"}, []int{0, 1}, "omsg,ret"},
+	"m.receiveUpdateRequest":          {"gen_receiveUpdateRequest", []string{"#self", "chid", "msg"}, []int{0, 0, 1}, "omsg,ret"},
 }
 
 func (h *hctx) chidArg(e ast.Expr, env henv) string {
@@ -509,6 +558,17 @@ func (h *hctx) effect(c *ast.CallExpr, env henv) (heffect, bool) {
 			k := h.chidArg(c.Args[0], env)
 			b := h.gensym("has")
 			return heffect{prog: "exec (IHas " + k + ")", binder: b, results: []hv{{coq: b, kind: "bool"}, retK("ROk")}}, true
+		case "CreateNew":
+			if len(c.Args) != 8 {
+				h.refuse(c, "CreateNew called with %d arguments", len(c.Args))
+			}
+			ok := h.gensym("ok")
+			p := fmt.Sprintf("exec (ICreate (create_new %s %s %s %s %s %s %s %s))", arg(0, "N"), arg(1, "N"), arg(2, "N"), arg(3, "node"), arg(4, "voucher"), arg(5, "N"), arg(6, "N"), arg(7, "N"))
+			return heffect{prog: p, binder: ok, results: []hv{{kind: "opaque"}, retOk(ok, "ROther")}}, true
+		case "SetDataLimit":
+			r := h.gensym("r")
+			p := fmt.Sprintf("(r0 <- exec (ISetLimit %s %s) ;; Ret (ret_of_send r0))", h.chidArg(c.Args[0], env), arg(1, "N"))
+			return heffect{prog: p, binder: r, results: []hv{retVar(r)}}, true
 		case "DataQueued", "DataSent", "DataReceived":
 			kd := map[string]string{"DataQueued": "KQueued", "DataSent": "KSent", "DataReceived": "KReceived"}[name]
 			k := h.chidArg(c.Args[0], env)
@@ -575,10 +635,26 @@ func (h *hctx) effect(c *ast.CallExpr, env henv) (heffect, bool) {
 		return heffect{prog: fmt.Sprintf("send %s Disconnected (err_arg E)", h.chidArg(c.Args[0], env)), binder: r, results: []hv{retVar(r)}}, true
 	case "m.validateRestart":
 		vv := h.gensym("vv")
-		return heffect{prog: fmt.Sprintf("validate_restart %s", arg(0, "chan")), binder: vv,
-			results: []hv{{coq: "fst " + vv, kind: "valres"}, retOk("negb (snd "+vv+")", "ROther")}}, true
+		return heffect{prog: fmt.Sprintf("gen_validateRestart %s", arg(0, "chan")), binder: vv,
+			results: []hv{{coq: "(fst " + vv + ")", kind: "valres"}, retVar("(snd " + vv + ")")}}, true
+	case "m.validatedTypes.Processor":
+		reg := h.gensym("reg")
+		return heffect{prog: fmt.Sprintf("exec (IRegistered %s)", arg(0, "str")), binder: reg, results: []hv{{kind: "opaque"}, {coq: reg, kind: "bool"}}}, true
+	case "validator.ValidateRestart":
+		vr := h.gensym("vr")
+		return heffect{prog: fmt.Sprintf("exec (IValidate VRestart %s)", h.chidArg(c.Args[0], env)), binder: vr,
+			results: []hv{{coq: vr, kind: "valres"}, retOk("negb (vr_err "+vr+")", "ROther")}}, true
+	case "m.channels.CreateNew":
+		// handled above (prefix m.channels.)
 	case "m.transportOptions.ApplyOptions":
 		return heffect{prog: "", results: []hv{retK("ROk")}}, true
+	}
+	if id, ok := c.Fun.(*ast.Ident); ok {
+		if v, ok := env[id.Name]; ok && v.kind == "vkind" {
+			vr := h.gensym("vr")
+			return heffect{prog: fmt.Sprintf("exec (IValidate %s %s)", paren(v.coq), h.chidArg(c.Args[0], env)), binder: vr,
+				results: []hv{{coq: vr, kind: "valres"}, retOk("negb (vr_err "+vr+")", "ROther")}}, true
+		}
 	}
 	if g, ok := hProgSiblings[callee]; ok {
 		var parts []string
@@ -593,8 +669,28 @@ func (h *hctx) effect(c *ast.CallExpr, env henv) (heffect, bool) {
 			}
 			parts = append(parts, paren(v.coq))
 		}
+		kinds := strings.Split(g.results, ",")
 		r := h.gensym("r")
-		return heffect{prog: g.coq + " " + strings.Join(parts, " "), binder: r, results: []hv{retVar(r)}}, true
+		prog := g.coq + " " + strings.Join(parts, " ")
+		if len(kinds) == 1 {
+			return heffect{prog: prog, binder: r, results: []hv{retVar(r)}}, true
+		}
+		var proj []string
+		switch len(kinds) {
+		case 2:
+			proj = []string{"fst " + r, "snd " + r}
+		case 3:
+			proj = []string{"fst (fst " + r + ")", "snd (fst " + r + ")", "snd " + r}
+		}
+		var res []hv
+		for i, k := range kinds {
+			if k == "ret" {
+				res = append(res, retVar("("+proj[i]+")"))
+			} else {
+				res = append(res, hv{coq: "(" + proj[i] + ")", kind: k})
+			}
+		}
+		return heffect{prog: prog, binder: r, results: res}, true
 	}
 	return heffect{}, false
 }
@@ -819,6 +915,29 @@ func (h *hctx) seq(list []ast.Stmt, env henv, tail tailFn) string {
 				if _, ok := msgCtors[callee]; ok && len(s.Lhs) == 2 { // x, err := message.F(...)
 					e2 := env.copy()
 					e2[lhsName(s.Lhs[0])], e2[lhsName(s.Lhs[1])] = h.expr(r, env), retK("ROk")
+					return rest(e2)
+				}
+				if callee == "message.ValidationResultResponse" && len(s.Lhs) == 2 && len(r.Args) == 5 {
+					mt, tid, vr, er, pz := h.expr(r.Args[0], env), h.expr(r.Args[1], env), h.expr(r.Args[2], env), h.expr(r.Args[3], env), h.expr(r.Args[4], env)
+					if mt.kind != "msgtype" || tid.kind != "N" || vr.kind != "valres" || pz.kind != "bool" || (er.kind != "ret" && er.kind != "nil") {
+						h.refuse(r, "ValidationResultResponse called with %s, %s, %s, %s, %s", mt.kind, tid.kind, vr.kind, er.kind, pz.kind)
+					}
+					eb := "false"
+					if er.kind == "ret" {
+						switch {
+						case er.konst != "":
+							if er.konst != "ROk" {
+								eb = "true"
+							}
+						case er.okflag != "":
+							eb = "negb " + paren(er.okflag)
+						default:
+							eb = "negb (ret_ok " + paren(er.coq) + ")"
+						}
+					}
+					e2 := env.copy()
+					e2[lhsName(s.Lhs[0])] = hv{coq: fmt.Sprintf("validation_result_response %s %s %s (%s) %s", mt.coq, paren(tid.coq), paren(vr.coq), eb, paren(pz.coq)), kind: "msg"}
+					e2[lhsName(s.Lhs[1])] = retK("ROk")
 					return rest(e2)
 				}
 				if (callee == "fmt.Errorf" || callee == "errors.New") && len(s.Lhs) == 1 {
@@ -1046,7 +1165,7 @@ func (h *hctx) pureAssigns(list []ast.Stmt, env henv) (map[string]hv, bool) {
 func (h *hctx) effectProbe(c *ast.CallExpr) (string, bool) {
 	callee := calleeString(c)
 	if strings.HasPrefix(callee, "m.channels.") || strings.HasPrefix(callee, "m.dataTransferNetwork.") || strings.HasPrefix(callee, "m.transport.") ||
-		strings.HasPrefix(callee, "pausable.") || callee == "m.OnRequestDisconnected" || callee == "m.validateRestart" {
+		strings.HasPrefix(callee, "pausable.") || callee == "m.OnRequestDisconnected" || callee == "m.validateRestart" || strings.HasPrefix(callee, "m.validatedTypes.") || strings.HasPrefix(callee, "validator.") {
 		return callee, true
 	}
 	_, ok := hProgSiblings[callee]
@@ -1099,11 +1218,11 @@ func (h *hctx) withPending(value string, isProg bool) string {
 }
 
 func (h *hctx) ret(s *ast.ReturnStmt, env henv) string {
-	if len(s.Results) != len(h.fn.results) {
+	if len(s.Results) != len(h.fn.results) && len(s.Results) != 1 {
 		h.refuse(s, "%d results returned, %d expected", len(s.Results), len(h.fn.results))
 	}
 	// a single effectful call in tail position
-	if len(s.Results) == 1 {
+	if len(s.Results) == 1 && len(h.fn.results) == 1 {
 		if c, ok := s.Results[0].(*ast.CallExpr); ok {
 			if ef, ok := h.effect(c, env); ok {
 				if ef.getByID || len(ef.results) != 1 {
@@ -1113,6 +1232,20 @@ func (h *hctx) ret(s *ast.ReturnStmt, env henv) string {
 					return h.withPending(ef.prog, true)
 				}
 				return bindP(ef.prog, ef.binder, h.withPending(ef.results[0].coq, false))
+			}
+		}
+	}
+	if len(s.Results) == 1 && len(h.fn.results) > 1 {
+		if c, ok := s.Results[0].(*ast.CallExpr); ok {
+			if ef, ok := h.effect(c, env); ok && !ef.getByID && len(ef.results) == len(h.fn.results) {
+				var ps []string
+				for i, v := range ef.results {
+					if v.kind != h.fn.results[i] {
+						h.refuse(s, "result %d of the call is a %s, expected %s", i+1, v.kind, h.fn.results[i])
+					}
+					ps = append(ps, v.coq)
+				}
+				return bindP(ef.prog, ef.binder, h.withPending("("+strings.Join(ps, ", ")+")", false))
 			}
 		}
 	}
@@ -1245,6 +1378,11 @@ func genHandlers(repo, out string, events map[string]bool) {
 		{file: "impl/utils.go", recv: "manager", name: "resumeOther", coqName: "gen_resumeOther", binders: "(self : N) (k : chid)", params: kP("chid"), results: []string{"ret"}, resultType: "prog nret"},
 		{file: "impl/utils.go", recv: "manager", name: "pauseOther", coqName: "gen_pauseOther", binders: "(self : N) (k : chid)", params: kP("chid"), results: []string{"ret"}, resultType: "prog nret"},
 		{file: "impl/impl.go", recv: "manager", name: "channelDataTransferType", coqName: "gen_channelDataTransferType", binders: "(self : N) (c : chan)", params: cP("channel"), results: []string{"ctype"}, pure: true, resultType: "ChannelDataTransferType"},
+		{file: "impl/receiving_requests.go", recv: "manager", name: "validateRestart", coqName: "gen_validateRestart", binders: "(c : chan)", params: cP("chst"), results: []string{"valres", "ret"}, resultType: "prog (valres * nret)"},
+		{file: "impl/receiving_requests.go", recv: "manager", name: "recordRejectedValidationEvents", coqName: "gen_recordRejectedValidationEvents", binders: "(k : chid) (vr : valres)",
+			params: map[string]hv{"#self": self, "chid": {coq: "k", kind: "chid"}, "result": {coq: "vr", kind: "valres"}}, results: []string{"ret"}, resultType: "prog nret"},
+		{file: "impl/receiving_requests.go", recv: "manager", name: "recordAcceptedValidationEvents", coqName: "gen_recordAcceptedValidationEvents", binders: "(c : chan) (vr : valres)",
+			params: map[string]hv{"#self": self, "chst": {coq: "c", kind: "chan"}, "result": {coq: "vr", kind: "valres"}}, results: []string{"ret"}, resultType: "prog nret"},
 		{file: "impl/restart.go", recv: "manager", name: "restartManagerPeerReceivePush", coqName: "gen_restartManagerPeerReceivePush", binders: "(c : chan)", params: cP("channel"), results: []string{"ret"}, resultType: "prog nret"},
 		{file: "impl/restart.go", recv: "manager", name: "restartManagerPeerReceivePull", coqName: "gen_restartManagerPeerReceivePull", binders: "(c : chan)", params: cP("channel"), results: []string{"ret"}, resultType: "prog nret"},
 		{file: "impl/restart.go", recv: "manager", name: "openPushRestartChannel", coqName: "gen_openPushRestartChannel", binders: "(c : chan)", params: cP("channel"), results: []string{"ret"}, resultType: "prog nret"},
@@ -1280,6 +1418,16 @@ func genHandlers(repo, out string, events map[string]bool) {
 			params: map[string]hv{"#self": self, "chid": {coq: "k", kind: "chid"}, "request": {coq: "m", kind: "msg"}}, results: []string{"omsg", "ret"}, resultType: "prog (option msg * nret)"},
 		{file: "impl/receiving_requests.go", recv: "manager", name: "processUpdateVoucher", coqName: "gen_processUpdateVoucher", binders: "(k : chid) (m : msg)",
 			params: map[string]hv{"#self": self, "chid": {coq: "k", kind: "chid"}, "request": {coq: "m", kind: "msg"}}, results: []string{"omsg", "ret"}, resultType: "prog (option msg * nret)"},
+		{file: "impl/receiving_requests.go", recv: "manager", name: "acceptRequest", coqName: "gen_acceptRequest", binders: "(self : N) (k : chid) (m : msg)",
+			params: map[string]hv{"#self": self, "chid": {coq: "k", kind: "chid"}, "incoming": {coq: "m", kind: "msg"}}, results: []string{"valres", "ret"}, resultType: "prog (valres * nret)"},
+		{file: "impl/receiving_requests.go", recv: "manager", name: "restartRequest", coqName: "gen_restartRequest", binders: "(self : N) (k : chid) (m : msg)",
+			params: map[string]hv{"#self": self, "chid": {coq: "k", kind: "chid"}, "incoming": {coq: "m", kind: "msg"}}, results: []string{"bool", "valres", "ret"}, resultType: "prog (bool * valres * nret)"},
+		{file: "impl/receiving_requests.go", recv: "manager", name: "receiveNewRequest", coqName: "gen_receiveNewRequest", binders: "(self : N) (k : chid) (m : msg)",
+			params: map[string]hv{"#self": self, "chid": {coq: "k", kind: "chid"}, "incoming": {coq: "m", kind: "msg"}}, results: []string{"omsg", "ret"}, resultType: "prog (option msg * nret)"},
+		{file: "impl/receiving_requests.go", recv: "manager", name: "receiveRestartRequest", coqName: "gen_receiveRestartRequest", binders: "(self : N) (k : chid) (m : msg)",
+			params: map[string]hv{"#self": self, "chid": {coq: "k", kind: "chid"}, "incoming": {coq: "m", kind: "msg"}}, results: []string{"omsg", "ret"}, resultType: "prog (option msg * nret)"},
+		{file: "impl/events.go", recv: "manager", name: "OnRequestReceived", coqName: "gen_OnRequestReceived", binders: "(self : N) (k : chid) (m : msg)",
+			params: map[string]hv{"#self": self, "chid": {coq: "k", kind: "chid"}, "request": {coq: "m", kind: "msg"}}, results: []string{"omsg", "ret"}, resultType: "prog (option msg * nret)"},
 	}
 	var b strings.Builder
 	b.WriteString("(* GENERATED by tools/dt2coq (handlers.go) from impl/utils.go, impl/restart.go, impl/impl.go, impl/events.go and the event\n   methods of channels/channels.go -- do not edit *)\n")
@@ -1312,7 +1460,9 @@ func genHandlers(repo, out string, events map[string]bool) {
 	b.WriteString("]%string.\n\n")
 	b.WriteString("Definition is_some_msg (o : option msg) : bool := match o with Some _ => true | None => false end.\n")
 	b.WriteString("Definition nret_is (a b : nret) : bool := match a, b with ROk, ROk | RPause, RPause | RRejected, RRejected | RNotFound, RNotFound | RTerminated, RTerminated | ROther, ROther => true | _, _ => false end.\n")
-	b.WriteString("Definition report_ret (x : sendres * bool) : nret := if snd x then RPause else ret_of_send (fst x).\n\n")
+	b.WriteString("Definition report_ret (x : sendres * bool) : nret := if snd x then RPause else ret_of_send (fst x).\n")
+	b.WriteString("(* manager.requestError with the error as a value: the error itself when there is one *)\n")
+	b.WriteString("Definition request_error_ret (vr : valres) (err : nret) (stay : bool) : nret := if negb (ret_ok err) then err else if negb (vr_accepted vr) then RRejected else if stay then RPause else ROk.\n\n")
 	files := map[string]*ast.File{}
 	for _, fn := range funcs {
 		f, ok := files[fn.file]
